@@ -98,7 +98,7 @@ def ctor_clauses(ctx, ss, rule):
             pops = [d for d in flow.defs if d.name == "daughters" and d.kind == "assign"]
             for d in pops:
                 conds = [(txt(e), pol) for kind, e, pol in guards.path_conditions(ff.node, d.stmt) if kind == "if"]
-                if conds != [("daughters is None and 'fs' in info", True)]:
+                if sorted(conds) != [("'fs' in info", True), ("daughters is None", True)]:
                     okd = False
     (ctx.holds if okd else ctx.violation)(rule, k + " :: fs", where(ff, ff.node),
                                           "daughters = DaughtersDict(daughters, or info.pop('fs') when no daughters are given)" if okd
@@ -185,22 +185,21 @@ def c11_3(ctx, ss):
     raises = [r for r in pf.walk_no_nested(ff.node) if isinstance(r, ast.Raise)]
     key = f"{DECAY}:_build_decay_modes :: rejects-repeated-mother"
     bad = None
-    for r in raises:
-        conds = [(txt(flow.expand(e)), pol) for kind, e, pol in guards.path_conditions(ff.node, r) if kind == "if"]
-        if len(conds) == 1 and conds[0][1] and conds[0][0] in ("next(iter(dc_dict.keys())) in decay_modes", "next(iter(dc_dict)) in decay_modes"):
-            bad = r
-    # the only acceptable rejection of a repeated mother: it was seen AND its mode differs
     cmp_ok = False
+    repeat_raises = []
     for r in raises:
-        conds = [(flow.expand(e), pol) for kind, e, pol in guards.path_conditions(ff.node, r) if kind == "if"]
-        for e, pol in conds:
-            t = txt(e)
-            if pol and " in decay_modes" in t and "not in decay_modes" not in t and isinstance(e, ast.BoolOp) and isinstance(e.op, ast.And):
-                neq = [x for x in e.values if isinstance(x, ast.Compare) and len(x.ops) == 1 and isinstance(x.ops[0], ast.NotEq)
-                       and "decay_modes[" in txt(x) and ("from_dict(" in txt(x) or ".to_dict()" in txt(x))]
-                mem = [x for x in e.values if isinstance(x, ast.Compare) and isinstance(x.ops[0], ast.In)]
-                cmp_ok = cmp_ok or (len(neq) == 1 and len(mem) == 1)
-    repeat_raises = [r for r in raises if any("decay_modes" in txt(e) for kind, e, pol in guards.path_conditions(ff.node, r) if kind == "if")]
+        atoms = [(flow.expand(e), pol) for kind, e, pol in guards.path_conditions(ff.node, r) if kind == "if"]
+        mem = [(e, pol) for e, pol in atoms if isinstance(e, ast.Compare) and isinstance(e.ops[0], ast.In) and txt(e.comparators[0]) == ff.params[0]]
+        if not mem:
+            continue
+        repeat_raises.append(r)
+        # canonical atoms: `a != b` holds  ==  (`a == b`, False)
+        differs = [(e, pol) for e, pol in atoms if isinstance(e, ast.Compare) and isinstance(e.ops[0], ast.Eq) and pol is False
+                   and f"{ff.params[0]}[" in txt(e) and ("from_dict(" in txt(e) or ".to_dict()" in txt(e))]
+        if all(pol for _, pol in mem) and len(differs) == 1 and len(atoms) == len(mem) + 1:
+            cmp_ok = True
+        elif all(pol for _, pol in mem) and len(atoms) == len(mem):
+            bad = r
     if bad is None and repeat_raises and not cmp_ok:
         ctx.violation("C11.3", key, where(ff, repeat_raises[0]),
                       "a mother seen again is refused under a condition other than 'already collected AND its decay mode differs': identical repeated sub-decays "
@@ -290,7 +289,8 @@ def c11_6(ctx, ss):
         conds = [(txt(e), pol) for kind, e, pol in guards.path_conditions(ff.node, d.stmt) if kind == "if"]
         v = txt(d.value)
         if v == "iterable.split()":
-            ok = sorted(conds) == sorted([("isinstance(iterable, dict)", False), ("iterable and isinstance(iterable, str)", True)])
+            ok = sorted(conds) in (sorted([("isinstance(iterable, dict)", False), ("iterable", True), ("isinstance(iterable, str)", True)]),
+                                   sorted([("isinstance(iterable, dict)", False), ("isinstance(iterable, str)", True)]))   # ''.split() == [] as well
             (ctx.holds if ok else ctx.violation)("C11.6", k + " :: str", where(ff, d.stmt), "a str argument is split on blanks" if ok else f"split applies under {conds}")
         elif v.startswith("{"):
             ok = conds == [("isinstance(iterable, dict)", True)]
